@@ -108,7 +108,7 @@ FAMILIES = [[2, 25, 255, 2555, 25555, 20, 200], [1, 10, 11, 12, 13, 14, 15, 16, 
 EMITTERS = [(1, "g"), (10, "g"), (1, "gx"), (1, "g0"), (1, "h"), (2, "h"), (25, "h"), (255, "k"), (65535, "k"), (0, "g"),
             (10001, "g"), (100, "h")]
 SMALL_SEQS = [0, 1, 2, 3, 4, 5, 9, 10, 11, 12, 19, 20, 21, 99, 100, 101, 110, 111, 199, 200, 255, 256, 299, 300]
-TAGS = ["v1", "v2", "v3", "v4", "v5L"]
+TAGS = ["v1", "v2", "v3", "v4", "v5L", "v1S", "v2S", "v5LS"]   # "...S": same body as the tag without S, other signatures / set index
 
 
 def random_history(rnd, maxops=40):
@@ -160,18 +160,25 @@ def random_history(rnd, maxops=40):
     def some_seqs():
         pool = sorted({i["seq"] for i in stored} | set(rnd.sample(SMALL_SEQS, 3)) | ({BIG_BASE + rnd.randrange(BIG_N)} if rnd.random() < 0.2 else set()))
         k = rnd.randint(1, min(20, len(pool)))
-        return sorted(rnd.sample(pool, k))
+        req = sorted(rnd.sample(pool, k))
+        if rnd.random() < 0.5:                  # the order of a request list carries no meaning
+            rnd.shuffle(req)
+        return req
 
     nops = rnd.randint(12, maxops)
     while len(steps) < nops:
         r = rnd.random()
         if r < 0.45 or len(stored) < 2:
-            if stored and rnd.random() < 0.2:
+            tag = rnd.choice(TAGS)
+            if stored and rnd.random() < 0.25:
                 i = dict(rnd.choice(stored))            # overwrite
+                prev = [x["a"]["v"]["tag"] for x in steps if x["ev"] == "Store" and x["a"]["v"]["id"] == i]
+                if prev and rnd.random() < 0.5:         # ... with the same message under another signature set
+                    tag = prev[-1][:-1] if prev[-1].endswith("S") else prev[-1] + "S"
             else:
                 st = some_stream()
                 i = ID(st["ec"], st["em"], st["tc"], some_seq(st["tc"]))
-            steps.append({"ev": "Store", "a": {"v": {"id": i, "tag": rnd.choice(TAGS)}}})
+            steps.append({"ev": "Store", "a": {"v": {"id": i, "tag": tag}}})
             if i not in stored:
                 stored.append(i)
         elif r < 0.62:
